@@ -15,6 +15,10 @@ def build(repo, tier, seed):
     b["undecided"] += bd_und
     b["assumptions"].append("the builder API returns what it says (group builders:C05): apply/>>/bind build Apply/Bind(self, function), case/when/otherwise keep the dispatch, append the new case LAST and "
                             "set the default, cached wraps with the given or a fresh memory cache, WithDefaultOptions is a non-forced WithOptions; none evaluates anything")
+    from . import definition_time
+    pl_syn, pl_und = definition_time.plumbing(repo)
+    b["syntactic"] += pl_syn
+    b["undecided"] += pl_und
     from . import ctor_c05
     b["syntactic"] += ctor_c05.obligations(repo)
     b["assumptions"].append("constructors store their arguments faithfully: AST obligation over __init__ of the 29 classes reaching the labrea ABCs (every field is assigned from its own "
